@@ -33,6 +33,31 @@ NotImplementedError_builtin = _builtins.NotImplementedError
 asyncio_TimeoutError = _asyncio.TimeoutError
 
 
+class ChainedCause(RuntimeError):
+    """raised `from` an OCPP error the handler had caught"""
+
+
+class ChainedContext(RuntimeError):
+    """raised while an OCPP error was being handled (implicit chaining)"""
+
+
+class WrapsOCPP(RuntimeError):
+    """carries an OCPP error as its argument"""
+
+
+def chained(cls):
+    import ocpp.exceptions as ex
+    inner = ex.SecurityError(description="TOP-SECRET-17", details={"leak": "TOP-SECRET-17"})
+    if cls is WrapsOCPP:
+        return cls(inner)
+    e = cls("TOP-SECRET-18")
+    if cls is ChainedCause:
+        e.__cause__ = inner
+    else:
+        e.__context__ = inner
+    return e
+
+
 def body_factory(tier, seed):
     def body(rep, support_ok):
         import ocpp.exceptions as ex
@@ -83,7 +108,8 @@ def body_factory(tier, seed):
                   type("Custom", (Exception,), {"__str__": lambda self: "TOP-SECRET-9"})(),
                   TypeError("TOP-SECRET-10"), NotImplementedError_builtin("TOP-SECRET-11"), RecursionError("TOP-SECRET-12"),
                   UnicodeDecodeError("utf-8", b"TOP-SECRET-13", 0, 1, "TOP-SECRET-13"), StopIteration("TOP-SECRET-14"),
-                  IndexError("TOP-SECRET-15"), asyncio_TimeoutError("TOP-SECRET-16")]
+                  IndexError("TOP-SECRET-15"), asyncio_TimeoutError("TOP-SECRET-16"),
+                  chained(ChainedCause), chained(ChainedContext), chained(WrapsOCPP)]
         # every exception type from a coroutine handler and from a plain function handler (the two are awaited /
         # called at different places of _handle_call)
         for e, h_async in [(e, a) for e in others for a in (True, False)]:
@@ -200,6 +226,8 @@ def replay(d):
         cls = excs.get(d["exception"]) or getattr(builtins, d["exception"], RuntimeError)
 
         def behave(kwargs):
+            if d["exception"] in ("ChainedCause", "ChainedContext", "WrapsOCPP"):
+                raise chained(globals()[d["exception"]])
             try:
                 e = cls("TOP-SECRET-R")
             except TypeError:
